@@ -1737,6 +1737,8 @@ def X3c(ctx: Ctx) -> RuleResult:
                     if site is None:
                         continue
                     cls, ks, vals, recv, how = site
+                    if any(isinstance(y, Sym) and y.name.startswith('lam:') for v_ in vals.values() for y in walk(v_)):
+                        continue    # the body of a lambda that was handed on: a template, judged where it is applied
                     key = f'{entry}:{cls}.{how}({",".join(ks)})'
                     reads = set(sem[cls]['reads'])
                     touched = sorted(set(ks) & reads)
